@@ -434,8 +434,60 @@ def encoder_replay(doc, inp, r, work, root, repo):
             return
     doc['native'] = 'not-reproduced'; doc['replay_driver'] = code; doc['replay_argv'] = [str(x) for x in cands[0]]
 
+VALUE_DRIVER = r'''
+using namespace ASAM::CMP;
+static Packet mk(bool present, unsigned type, size_t len, unsigned seed) { Packet p; if (present) { std::vector<uint8_t> b(len); for (size_t i = 0; i < len; ++i) b[i] = (uint8_t)(seed + i); Payload pl(PayloadType(type), b.data(), b.size()); p.setPayload(pl); } return p; }
+int main(int argc, char** argv) {
+  std::string what = argv[1]; int bad = 0;
+  if (what == "eq_reflexive") {
+    size_t n = strtoull(argv[2], 0, 10); unsigned type = strtoul(argv[3], 0, 10); std::vector<uint8_t> b(n, 7);
+    Payload x(PayloadType(type), b.data(), b.size()); TECMP::Payload t(TECMP::PayloadType(type), b.data(), b.size()); Packet p = mk(true, type, n, 1);
+    if (!(x == x)) { printf("VIOLATED: Payload x == x is false (length %zu)\n", n); ++bad; }
+    if (!(t == t)) { printf("VIOLATED: TECMP::Payload x == x is false (length %zu)\n", n); ++bad; }
+    if (!(p == p) && n > 0 && n <= 65535) { printf("VIOLATED: Packet x == x is false\n"); ++bad; }
+    if ((p != p) == (p == p)) { printf("VIOLATED: != is not the negation of ==\n"); ++bad; }
+  } else {   // assign: target(present,type,len) = source(present,type,len)
+    bool tp = atoi(argv[2]); unsigned tt = strtoul(argv[3], 0, 10); size_t tl = strtoull(argv[4], 0, 10); bool sp = atoi(argv[5]); unsigned st = strtoul(argv[6], 0, 10); size_t sl = strtoull(argv[7], 0, 10);
+    Packet a = mk(tp, tt, tl, 3), b = mk(sp, st, sl, 9);
+    a = b;
+    bool presentA = true; try { presentA = sp ? (a.getPayloadLength() == sl) : true; } catch (...) {}
+    if (sp) {
+      if (!tp && !sp) {}
+      if (a.getPayloadLength() != b.getPayloadLength()) { printf("VIOLATED: assigned packet has payload length %u, source %u\n", a.getPayloadLength(), b.getPayloadLength()); ++bad; }
+      else if (a.isValid() != b.isValid() || (a.isValid() && a.getPayload().getType().getType() != b.getPayload().getType().getType())) { printf("VIOLATED: assigned packet's payload type/validity differs from the source's\n"); ++bad; }
+      else if (!tp && a.isValid() != b.isValid()) { ++bad; }
+      if (sp && tp && a.isValid() && b.isValid() && a.getPayload().getType().getType() != st) { printf("VIOLATED: payload type not copied\n"); ++bad; }
+      if (sp && !a.isValid() && b.isValid()) { printf("VIOLATED: source has a valid payload, assigned target has none/invalid\n"); ++bad; }
+    } else if (tp && a.isValid()) { printf("VIOLATED: source has no payload but the assigned target kept its own\n"); ++bad; }
+  }
+  printf("violations=%d\n", bad); return bad ? 3 : 0;
+}
+'''
+
+def value_replay(doc, inp, r, work, root, repo):
+    """C14: equality reflexivity / assignment; the counterexample's shape (payload presence, types, lengths) is rebuilt through the public API"""
+    fn = r['enforce'] or ''
+    code = PRE + VALUE_DRIVER
+    exe = build_driver(work, repo, 'drv_value', code)
+    runs = []
+    if 'op_eq' in fn or 'op_ne' in fn:
+        n = fieldval(inp, '.payloadData.n', 4)
+        for nn in (n if 0 < n <= 65535 else 4, 0, 1): runs.append(['eq_reflexive', str(nn), str(0x0101)])
+    else:
+        # target / source shapes: from the trace when present, plus the zero-length / empty-packet corner cases
+        for (tp, tt, tl, sp, st, sl) in ((1, 0x01FF, 0, 0, 0, 0), (0, 0, 0, 1, 0x0102, 0), (1, 0x0101, 0, 1, 0x0102, 0), (1, 0x0101, 3, 1, 0x0102, 3), (0, 0, 0, 1, 0x0101, 5)):
+            runs.append(['assign', str(tp), str(tt), str(tl), str(sp), str(st), str(sl)])
+    doc['native_expected'] = 'violations=0'
+    for argv in runs:
+        p = subprocess.run([exe] + argv, stdout=subprocess.PIPE, stderr=subprocess.PIPE, timeout=60)
+        if p.returncode != 0:
+            doc['native_call'] = 'value-semantics scenario ' + ' '.join(argv); doc['native_observed'] = p.stdout.decode()[-800:]; doc['native_stderr'] = p.stderr.decode()[-400:]
+            doc['native'] = 'reproduced'; doc['replay_driver'] = code; doc['replay_argv'] = argv; return
+    doc['native'] = 'not-reproduced'; doc['replay_driver'] = code; doc['replay_argv'] = runs[0]
+
 def family_of(r, root):
     name = r['name']
+    if name.startswith(('h_Payload_op_eq', 'h_TECMP_Payload_op_eq', 'h_Packet_op_eq', 'h_Packet_op_ne', 'h_Packet_copy_assign', 'h_Packet_self_assign')): return value_replay
     if 'Encoder_' in (r['enforce'] or '') or name.startswith('lemma_') and 'batch' in name: return encoder_replay
     if (r['enforce'] or '') in VALIDATORS: return validator_replay
     if name == 'h_' + (r['enforce'] or '') and (r['enforce'] or '').startswith(ACCESSOR_CLASSES) and re.search(r'_get(Data|SamplesCount|DeviceDescription|SerialNumber|HardwareVersion|SoftwareVersion|VendorData\w*|StreamIds\w*)$', r['enforce']): return clause_replay
